@@ -288,16 +288,7 @@ def sibling_history_cases(cases, rng, n):
             out.append(Case(line, kind, exp, dict(sib=True)))
     return out
 
-def _nibble_shift(b):
-    """`0a bc` -> `ab 0c` at the first byte whose high nibble is zero (and whose neighbours make the result different): the two have the
-    same rendering when each byte is printed without zero padding — what a comparison through an unpadded hex / decimal string confuses"""
-    h = b.hex()
-    for p in range(0, len(h) - 3, 2):
-        if h[p] == "0" and h[p + 2] != "0":
-            h2 = h[:p] + h[p + 1] + h[p + 2] + "0" + h[p + 3:]
-            if h2 != h:
-                return bytes.fromhex(h2)
-    return b
+from gen_util import nibble_moves as _nibble_moves
 
 STRUCT_TRANSFORMS = [
     ("reversed", lambda b, o: b[::-1]),
@@ -306,7 +297,7 @@ STRUCT_TRANSFORMS = [
     ("halves-swapped", lambda b, o: b[len(b) // 2:] + b[:len(b) // 2]),
     ("most-significant-byte-changed", lambda b, o: b[:-1] + bytes([b[-1] ^ 0x5a])),
     ("least-significant-byte-changed", lambda b, o: bytes([b[0] ^ 0xa5]) + b[1:]),
-    ("nibbles-shifted-across-a-zero-nibble", lambda b, o: _nibble_shift(b)),
+    ("zero-nibble-moved", lambda b, o: _nibble_moves(b)),
     ("all-zero", lambda b, o: bytes(len(b))),
     ("all-ff", lambda b, o: b"\xff" * len(b)),
     ("equal-to-another-argument", lambda b, o: o),
@@ -342,18 +333,19 @@ def structured_sibling_cases(cases, rng, per_op):
                 for name, f in STRUCT_TRANSFORMS:
                     if name == "equal-to-another-argument" and not others:
                         continue
-                    b2 = f(b, others[0] if others else b)
-                    if b2 == b:
-                        continue
-                    t2 = list(toks); t2[i] = b2.hex()
-                    line = " ".join(t2) + sep + draws
-                    try:
-                        e = pydriver.expected(line)
-                    except Exception:
-                        e = None
-                    if e is not None and toks[0] == "srv.server" and e.startswith("err"):
-                        e = None
-                    out.append(Case(line, "relation:one-argument-" + name, e, dict(sib=True)))
+                    r = f(b, others[0] if others else b)
+                    for b2 in (r if isinstance(r, list) else [r]):
+                        if b2 == b:
+                            continue
+                        t2 = list(toks); t2[i] = b2.hex()
+                        line = " ".join(t2) + sep + draws
+                        try:
+                            e = pydriver.expected(line)
+                        except Exception:
+                            e = None
+                        if e is not None and toks[0] == "srv.server" and e.startswith("err"):
+                            e = None
+                        out.append(Case(line, "relation:one-argument-" + name, e, dict(sib=True)))
     return out
 
 def load_known():
